@@ -22,6 +22,10 @@ VARIABLES hist, streak, settling, dirty, destr
 gvars == <<vars, hist, streak, settling, dirty, destr>>
 
 GenRoa == {<<"p1", "a1">>, <<"p2", "a1">>, <<"p2", "a2">>}
+GenAspa == {<<"a1", "prov:a2">>, <<"a1", "prov:a2+a3">>}
+GenRoaAspa == GenRoa \cup GenAspa
+NoAspa == {}
+ProvOf(x) == IF x[2] = "prov:a2" THEN <<"a2">> ELSE <<"a2", "a3">>
 GenChain == [c \in Sub |-> IF c = "B" THEN "A" ELSE IF c = "C" THEN "B" ELSE "A"]
 
 SetToSeq(S) ==
@@ -56,10 +60,13 @@ GenApiAny ==
          \/ ChildUnsuspend(c) /\ Api([a |-> "ChildUnsuspend", c |-> c, p |-> parent[c]])
     \/ "remove" \in Ops /\ \E c \in Sub :
          ChildRemove(c) /\ Api([a |-> "ChildRemove", c |-> c, p |-> parent[c]])
-    \/ "roa" \in Ops /\ \E c \in AllCA, r \in Roa :
+    \/ "aspa" \in Ops /\ \E c \in AllCA, x \in AspaDefs :
+         \/ AspaSet(c, x) /\ Api([a |-> "AspaSet", c |-> c, cust |-> x[1], prov |-> ProvOf(x)])
+         \/ AspaDel(c, x[1]) /\ Api([a |-> "AspaSet", c |-> c, cust |-> x[1], prov |-> <<>>])
+    \/ "roa" \in Ops /\ \E c \in AllCA, r \in Roa \ AspaDefs :
          \/ RoaAdd(c, r) /\ Api([a |-> "RoaAdd", c |-> c, r |-> <<r[1], r[2]>>])
          \/ RoaDel(c, r) /\ Api([a |-> "RoaDel", c |-> c, r |-> <<r[1], r[2]>>])
-    \/ "roadelta" \in Ops /\ \E c \in AllCA, A \in SUBSET Roa, D \in SUBSET Roa :
+    \/ "roadelta" \in Ops /\ \E c \in AllCA, A \in SUBSET (Roa \ AspaDefs), D \in SUBSET (Roa \ AspaDefs) :
          /\ Cardinality(A) + Cardinality(D) >= 2
          /\ RoaDelta(c, A, D)
          /\ Api([a |-> "RoaDelta", c |-> c,
